@@ -100,16 +100,17 @@ Theorem C03_step_truncate : forall (s : fsys) (sv : sview) (cs : list str) (size
   = k_truncate s sv (abs_path cs) size.
 Proof. exact dstep_truncate. Qed.
 
-(* write + search permission on the parent (EACCES); owner, group and mode of the new directory.
-   [no_setgid_parent]: set-group-id inheritance (listed: C01-SETGID-INHERIT) *)
+(* write + search permission on the parent (EACCES); owner, group and mode of the new directory - in a
+   set-group-id directory the group of that directory and the set-group-id bit (inode_init_owner; this was the
+   deviation C01-SETGID-INHERIT and a premise [no_setgid_parent] until createDir/createFile/createSymlink were repaired) *)
 Theorem C03_step_mkdir : forall (s : fsys) (sv : sview) (w : list str) (cl : str) (perm : N),
-  dac_hyps s sv -> path_ok s sv SlLstat (w ++ [cl]) -> no_setgid_parent s sv (w ++ [cl]) ->
+  dac_hyps s sv -> path_ok s sv SlLstat (w ++ [cl]) ->
   let p := abs_path (w ++ [cl]) in
   (fst (mkdir s (sv_view sv) p perm), proj_res Linux (snd (mkdir s (sv_view sv) p perm))) = k_mkdir s sv p perm.
 Proof. exact dstep_mkdir. Qed.
 
 Theorem C03_step_symlink : forall (s : fsys) (sv : sview) (w : list str) (cl : str) (t : str),
-  dac_hyps s sv -> path_ok s sv SlLstat (w ++ [cl]) -> no_setgid_parent s sv (w ++ [cl]) ->
+  dac_hyps s sv -> path_ok s sv SlLstat (w ++ [cl]) ->
   let p := abs_path (w ++ [cl]) in
   (fst (symlink s (sv_view sv) t p), proj_res Linux (snd (symlink s (sv_view sv) t p))) = k_symlink s sv (clean Linux t) p.
 Proof. exact dstep_symlink. Qed.
@@ -155,7 +156,7 @@ Proof. exact dstep_open_nocreat. Qed.
 Theorem C03_step_open_create : forall (s : fsys) (sv : sview) (w : list str) (cl : str) (flag perm : N) (vi : nat),
   dac_hyps s sv -> path_ok s sv SlEval (w ++ [cl]) ->
   has flag O_CREATE = true -> has flag O_EXCL = false ->
-  (has flag O_TRUNC = true -> file_privs_kept s sv (w ++ [cl])) -> no_setgid_parent_follow s sv (w ++ [cl]) ->
+  (has flag O_TRUNC = true -> file_privs_kept s sv (w ++ [cl])) ->
   let p := abs_path (w ++ [cl]) in
   open_sim (open_file s (sv_view sv) vi p flag perm) (k_open s sv p flag perm).
 Proof. exact dstep_open_creat. Qed.
@@ -164,7 +165,7 @@ Proof. exact dstep_open_creat. Qed.
 Theorem C03_step_open_excl : forall (s : fsys) (sv : sview) (w : list str) (cl : str) (flag perm : N) (vi : nat),
   dac_hyps s sv -> path_ok s sv SlLstat (w ++ [cl]) ->
   has flag O_CREATE = true -> has flag O_EXCL = true ->
-  excl_existing_accessible s sv (w ++ [cl]) flag -> no_setgid_parent s sv (w ++ [cl]) ->
+  excl_existing_accessible s sv (w ++ [cl]) flag ->
   let p := abs_path (w ++ [cl]) in
   open_sim (open_file s (sv_view sv) vi p flag perm) (k_open s sv p flag perm).
 Proof. exact dstep_open_excl. Qed.
@@ -280,37 +281,49 @@ Proof. exact admin_no_eperm_link. Qed.
 
 (* ---- C03_created_owner: every node a call allocates -------------------------------------------------------------------- *)
 (* [allocated s s' m]: exactly one node was added, at index |heap|, with meta [m]; older metas unchanged.
-   [dir_meta]/[file_meta]/[link_meta]: uid and gid of the calling view, mode = type bits | (perm & mask) &^ umask *)
-Theorem C03_created_meta : forall (v : view) (perm : N),
-  (m_uid (dir_meta v perm) = us_uid (v_user v) /\ m_gid (dir_meta v perm) = us_gid (v_user v)
-   /\ m_mode (dir_meta v perm) = N.lor (dir_mode (v_os v)) (N.ldiff (N.land perm (511 + MODE_STICKY)) (v_umask v)))
-  /\ (m_uid (file_meta v perm) = us_uid (v_user v) /\ m_gid (file_meta v perm) = us_gid (v_user v)
-      /\ m_mode (file_meta v perm) = N.lor (file_mode (v_os v)) (N.ldiff (N.land perm FILE_MODE_MASK) (v_umask v))).
-Proof. intros v perm. exact (conj (dir_meta_spec v perm) (file_meta_spec v perm)). Qed.
+   [dir_meta v pm]/[file_meta v pm]/[link_meta v pm] where [pm] is the meta data of the directory the object is created in
+   ([parent_meta]: the parent the walk of the call hands back): uid of the calling view; gid of the calling view, or the
+   gid of [pm] when [pm] is set-group-id; mode = type bits | (perm & mask) &^ umask, a new directory also inherits the
+   set-group-id bit of [pm] (inode_init_owner) *)
+Theorem C03_created_meta : forall (v : view) (pm : meta) (perm : N),
+  (m_uid (dir_meta v pm perm) = us_uid (v_user v)
+   /\ m_gid (dir_meta v pm perm) = (if has (m_mode pm) MODE_SETGID then m_gid pm else us_gid (v_user v))
+   /\ m_mode (dir_meta v pm perm)
+      = N.lor (N.lor (dir_mode (v_os v)) (N.ldiff (N.land perm (511 + MODE_STICKY)) (v_umask v))) (N.land (m_mode pm) MODE_SETGID))
+  /\ (m_uid (file_meta v pm perm) = us_uid (v_user v)
+      /\ m_gid (file_meta v pm perm) = (if has (m_mode pm) MODE_SETGID then m_gid pm else us_gid (v_user v))
+      /\ m_mode (file_meta v pm perm) = N.lor (file_mode (v_os v)) (N.ldiff (N.land perm FILE_MODE_MASK) (v_umask v)))
+  /\ link_meta v pm = {| m_mode := N.lor MODE_SYMLINK 511; m_uid := us_uid (v_user v);
+                        m_gid := if has (m_mode pm) MODE_SETGID then m_gid pm else us_gid (v_user v) |}.
+Proof. intros v pm perm. exact (conj (dir_meta_spec v pm perm) (conj (file_meta_spec v pm perm) eq_refl)). Qed.
 
 Theorem C03_created_owner_mkdir : forall (s : fsys) (v : view) (name : str) (perm : N),
-  (snd (mkdir s v name perm) = ROk /\ allocated s (fst (mkdir s v name perm)) (dir_meta v perm))
+  (snd (mkdir s v name perm) = ROk
+   /\ allocated s (fst (mkdir s v name perm)) (dir_meta v (parent_meta s (search_node s v name SlLstat)) perm))
   \/ (snd (mkdir s v name perm) <> ROk /\ fst (mkdir s v name perm) = s).
 Proof. exact mkdir_created. Qed.
 
+(* every directory of the chain MkdirAll creates has the same meta data: group and set-group-id bit are inherited along it *)
 Theorem C03_created_owner_mkdir_all : forall (s : fsys) (v : view) (path : str) (perm : N),
-  allocated_many s (fst (mkdir_all s v path perm)) (dir_meta v perm).
+  allocated_many s (fst (mkdir_all s v path perm)) (dir_meta v (parent_meta s (search_node s v path SlEval)) perm).
 Proof. exact mkdir_all_created. Qed.
 
 Theorem C03_created_owner_open_file : forall (s : fsys) (v : view) (vi : nat) (name : str) (flag perm : N),
   metas_kept s (fst (open_file s v vi name flag perm))
-  \/ (allocated s (fst (open_file s v vi name flag perm)) (file_meta v perm)
+  \/ (allocated s (fst (open_file s v vi name flag perm))
+        (file_meta v (parent_meta s (search_node s v name (if has (to_open_mode flag) OpenCreateExcl then SlLstat else SlEval))) perm)
       /\ exists f, snd (open_file s v vi name flag perm) = inr f /\ hd_node f = Some (length (f_heap s))).
 Proof. exact open_file_created. Qed.
 
 Theorem C03_created_owner_symlink : forall (s : fsys) (v : view) (oldname newname : str),
-  (snd (symlink s v oldname newname) = ROk /\ allocated s (fst (symlink s v oldname newname)) (link_meta v))
+  (snd (symlink s v oldname newname) = ROk
+   /\ allocated s (fst (symlink s v oldname newname)) (link_meta v (parent_meta s (search_node s v newname SlLstat))))
   \/ (snd (symlink s v oldname newname) <> ROk /\ fst (symlink s v oldname newname) = s).
 Proof. exact symlink_created. Qed.
 
 Theorem C03_created_owner_write_file : forall (s : fsys) (v : view) (name : str) (data : list N) (perm : N),
   metas_kept s (fst (write_file s v name data perm))
-  \/ allocated s (fst (write_file s v name data perm)) (file_meta v perm).
+  \/ allocated s (fst (write_file s v name data perm)) (file_meta v (parent_meta s (search_node s v name SlEval)) perm).
 Proof. exact write_file_created. Qed.
 
 (* ---- non-vacuity (Fs/DacExamples.v, module DacTree: three ordinary users on a nine-node tree) -------------------------- *)
@@ -332,6 +345,18 @@ Example C03_example_chmod_setgid :
   /\ meta_at (f_heap (w_fs (fst (impl_step_proj DacTree.w_alice c)))) 8 = Some (DacTree.mk 420 1000 2000)
   /\ meta_at (f_heap (sw_fs (fst (spec_step true DacTree.sw_alice c)))) 8 = Some (DacTree.mk 420 1000 2000).
 Proof. exact DacTree.chmod_nonmember_clears_setgid. Qed.
+
+(* set-group-id inheritance: bob (1001:1000) creates a directory in /h/s (alice:2000, mode 02777): the step theorem
+   applies, and the new directory is bob:2000 with mode 02755 on both sides (the former deviation C01-SETGID-INHERIT) *)
+Example C03_example_setgid_inherit :
+  let p := abs_path ([DacTree.n_h; DacTree.n_s] ++ [DacTree.n_n]) in
+  (fst (mkdir DacTree.dfs_sg (DacTree.view_of DacTree.bob 18) p 511),
+   proj_res Linux (snd (mkdir DacTree.dfs_sg (DacTree.view_of DacTree.bob 18) p 511)))
+  = k_mkdir DacTree.dfs_sg (DacTree.svu DacTree.bob 18) p 511
+  /\ snd (k_mkdir DacTree.dfs_sg (DacTree.svu DacTree.bob 18) p 511) = SOk
+  /\ meta_at (f_heap (fst (mkdir DacTree.dfs_sg (DacTree.view_of DacTree.bob 18) p 511))) 9
+     = Some (DacTree.mk (N.lor MODE_DIR (N.lor MODE_SETGID 493)) 1001 2000).
+Proof. exact DacTree.mkdir_setgid_inherits. Qed.
 
 (* the administrator theorem applies to the initial world of MemFS *)
 Example C03_example_admin : forall um c, call_view (init_world_linux um) c = 0 ->
